@@ -89,7 +89,7 @@ def run(ctx):
         eq(ctx, "R3", f"{k}: energy=E equals wavelength=neutron_wavelength(E)", ge[k], gw[k], site, nonzero=nz)
     gb = spec.unpack(I.call(ns, [dict(comp)], {"density": rho, "energy": E, "wavelength": lam}))
     eq(ctx, "R3", "energy= takes precedence over wavelength= (documented)", gb["abs_xs"], ge["abs_xs"], site, nonzero=nz)
-    ctx.floor("R3", 8)
+    ctx.floor("R3", 8)   # (7 more below, with an energy-dependent isotope)
 
     # R4 conversions
     nw = I.global_name("nsf", "neutron_wavelength")
@@ -161,6 +161,14 @@ def run(ctx):
             for j in (0, 1):
                 eq(ctx, "R5", f"{k}: explicit wavelength vector, element {j} = scalar call at that wavelength (call {call_no})",
                    items[j], scal[j][k], site, nonzero=[rho * Me])
+    # R3 again, for a compound with an energy-dependent isotope (its scattering length is looked up in a table: the
+    # lookup must be the same whichever of energy= / wavelength= named the beam)
+    EFe = Ie.global_name("nsf", "ENERGY_FACTOR")
+    gee = spec.unpack(Ie.call(nse, [dict(compe)], {"density": rho, "energy": E}))
+    gwe = spec.unpack(Ie.call(nse, [dict(compe)], {"density": rho, "wavelength": sp.sqrt(EFe / E)}))
+    for k in spec.OUTPUTS:
+        eq(ctx, "R3", f"{k}: energy=E equals wavelength=neutron_wavelength(E) with an energy-dependent isotope", gee[k], gwe[k], site,
+           nonzero=[rho * Me])
     ctx.floor("R5", 41)
 
     # R6 signs: on the scattering kernel itself with opaque inputs, so that the structure
